@@ -20,3 +20,20 @@ func H_C16_size(p int, spare int) {
 	vAssert("caller-bytes-untouched", string(buf[:p]) == snap)
 	vReach("pretty", f == FormatPretty)
 }
+
+// the caller's buffer is the result of an earlier call: the earlier text stays what it was and the new text follows
+//
+//verif:harness C16 thorough
+func H_C16_sizeChain() {
+	s1, s2 := Size(vU64("s1")), Size(vU64("s2"))
+	vAssume(s1 < 1<<34 && s2 < 1<<34)
+	f1, f2 := Format(vU8("f1")&3), Format(vU8("f2")&3)
+	a, _ := DefaultFormatter(nil, s2, f2)
+	alone := string(a)
+	first, err1 := DefaultFormatter(nil, s1, f1)
+	snap := string(first)
+	second, err2 := DefaultFormatter(first, s2, f2)
+	vAssert("no-error", err1 == nil && err2 == nil)
+	vAssert("earlier-text-kept-and-new-text-appended", string(second) == snap+alone)
+	vAssert("earlier-result-untouched", string(first) == snap)
+}
